@@ -9,6 +9,15 @@ CLAIMS = {
  "C03": dict(cat="model_checking", tech="TLA+ Layer-A trace validation (TLC) of crash-image recordings from the real code",
    text="Every recording of the real code on the fault-enumerating file system (a crash image before every mutating file-system call and at every 512-aligned cut of an in-flight write, each image reopened by the real code and read back) is validated by TLC against the property-level specification spec/PogrebAbs.tla (actions Image/Reopened/CrashOK). Model checking of recordings, not a proof: assurance is for the enumerated histories and crash points.",
    note="Trusts: TLC, the crashfs fault model (= the process-crash model stated in the property), the harness read-back through the public API.", ref="5.2, 6 (C03)"),
+ "C04": dict(cat="model_checking", tech="TLA+ Layer-A trace validation (TLC) of multi-epoch crash recordings; TLC model check of spec/Wal.tla",
+   text="Runs that continue INSIDE crash images for several epochs (crash points also inside the recovering Open, every image recovered twice) are recorded from the real code and validated by TLC against Layer A (Continue, Reopened with idempotence); the bounded Wal model (recovery, truncation, append offset) is checked exhaustively and its pinned-behaviour config must reproduce the repaired defect.",
+   note="Trusts TLC, crashfs and the harness read-back; bounded exploration, not a proof.", ref="6 (C04)"),
+ "C06": dict(cat="model_checking", tech="TLA+ Layer-A trace validation (TLC) of power-loss image recordings; TLC model check of spec/Wal.tla (power family)",
+   text="At every mutating file-system call of random histories (both sync modes, rollover, compaction, earlier recoveries) the admissible power-loss images are reopened by the real code; TLC validates the recordings against Layer A's per-key durable floor (LossOK). The Wal model's power-loss family is checked exhaustively within small bounds, with one refuted pinned-behaviour config per repaired durability defect.",
+   note="Trusts TLC, the crashfs durability bookkeeping (= the power-loss model stated in the property) and the sampling of image products when they exceed the per-instant limit.", ref="6 (C06)"),
+ "C09": dict(cat="model_checking", tech="TLA+ Layer-A trace validation (TLC) of power-loss images taken after Close; TLC model check of spec/Wal.tla (Close/OpenClean)",
+   text="Power-loss images from the return of every Close to the end of the next Open (all files relevant since no lock file remains) are reopened by the real code in both sync modes; TLC validates them against Layer A with the durable floor set to everything at ret(Close).",
+   note="Same trusted base as C06.", ref="6 (C09)"),
 }
 NA_REASON = "check not built yet in this revision (the design in DESIGN.md section 6 stands); not claimed until its check runs"
 
